@@ -456,6 +456,83 @@ def job_api(cfg):
     return n, res
 
 
+OVERLAP_CFGS = [dict(family='ET', tag='HSB', power=50000, refused=(), battery_mode=2),
+                dict(family='ET', tag='ETU', power=10000, refused=(), battery_mode=2),
+                dict(family='ET', tag='25KET', power=25000, refused=('meter_ext2',), battery_mode=2),
+                dict(family='DT', tag='DTU', power=10000, refused=(), battery_mode=0),
+                dict(family='DT', tag='DSN', power=3000, refused=('meter',), battery_mode=0),
+                dict(family='ES', tag='ESU', power=5000, refused=(), battery_mode=0)]
+
+
+def job_overlap(cfg):
+    """Two polls of one object overlap (the second is started when the inverter has seen k requests of the first, every k)
+    while the inverter's measurements change with every request it answers: each result still relates raw and derived
+    values of ONE response."""
+    import asyncio
+    from ..configs import make_rig
+    fam = cfg['family']
+    vio = {}
+    n = 0
+
+    def changing(dev):
+        orig = dev.on_send
+
+        def on_send(sock, data):
+            i = len(dev.log) + 1
+            if fam == 'ES':
+                for a in range(0, len(dev.runtime)):
+                    if a not in (30, 37, 40, 41, 80):
+                        dev.runtime[a] = (a * 7 + i * 13) & 0x3F
+            else:
+                lo, hi = (35103, 35225) if fam == 'ET' else (30103, 30173)
+                for a in range(lo, hi):
+                    if a != 35184:
+                        dev.rf.set(a, (0xFFFF if (a + i) % 5 == 0 else 0) if a in (35137, 35139, 35182, 35104, 35108, 35112, 35116)
+                                   else (a * 7919 + i * 977) & 0x7FF)
+            return orig(sock, data)
+        dev.on_send = on_send
+    base = make_rig(cfg, 'udp', fill=lambda a: 0)
+    base.call(base.inv.read_device_info)
+    base.call(base.inv.read_runtime_data)
+    l0 = len(base.dev.log)
+    base.call(base.inv.read_runtime_data)
+    nreq = len(base.dev.log) - l0
+    for k in range(nreq + 1):
+        world.reset()
+        r = make_rig(cfg, 'udp', fill=lambda a: 0)
+        inv, dev = r.inv, r.dev
+        r.call(inv.read_device_info)
+        r.call(inv.read_runtime_data)
+        changing(dev)
+        l1 = len(dev.log)
+
+        async def both():
+            async def second():
+                guard = 0
+                while len(dev.log) - l1 < k and guard < 400:
+                    guard += 1
+                    await asyncio.sleep(0.0004)
+                return await inv.read_runtime_data()
+            return await asyncio.gather(inv.read_runtime_data(), second(), return_exceptions=True)
+        st = r.call(both)
+        n += 1
+        if st[0] != 'ok':
+            continue
+        for which, d in enumerate(st[1]):
+            if not isinstance(d, dict):
+                continue
+            for name, cause in relations(fam, inv, d, None):
+                key = f'api:{name}/{fam}/overlapping-polls-of-changing-measurements'
+                vio.setdefault(key, []).append(dict(key=key, clause=name, replay=dict(kind='overlap', cfg=cfg, k=k),
+                                                    detail=dict(cause=cause, second_poll_started_after_request=k, result_of_poll=which,
+                                                                model=cfg['tag'], rated=cfg['power'])))
+    res = []
+    for key, lst in vio.items():
+        lst[0]['n'] = len(lst)
+        res.append(lst[0])
+    return n, res
+
+
 def api_configs(tier, seed):
     from ..configs import et_configs, dt_configs, es_configs, ET_TAGS
     seen = set()
@@ -552,7 +629,12 @@ def run(tier, seed, rep):
         napi += n
         rep.add_many(res)
     total += napi
-    cov = dict(api_session_histories=_api['histories'], api_session_states=_api['states'], evaluations=total + nl, api_results_checked=napi, api_configurations=len(acfgs), distinct_nontrivial=total, pinned_label_tables_compared=nl,
+    novl = 0
+    for n, res in pmap(job_overlap, OVERLAP_CFGS):
+        novl += n
+        rep.add_many(res)
+    total += novl
+    cov = dict(overlapping_poll_pairs=novl, api_session_histories=_api['histories'], api_session_states=_api['states'], evaluations=total + nl, api_results_checked=napi, api_configurations=len(acfgs), distinct_nontrivial=total, pinned_label_tables_compared=nl,
                rule='every (code, label) pair discovered structurally in every table: all 65536 code words (all 256 x other '
                     'half for one-byte codes); 4-byte bitmaps: all 65536 values of each half x other half in '
                     '{0,0xFFFF,0x8001}; two-word bitmaps: all 65536 values of each word x the other in {0,1,0x8000,0xFFFF}; '
@@ -579,6 +661,11 @@ def replay(r):
         rp = Report('C13')
         pinned_labels_part(rp)
         return dict(violations=sorted(rp.by_key))
+    if r['kind'] == 'overlap':
+        cfg = r['cfg']
+        cfg['refused'] = tuple(cfg['refused'])
+        n, res = job_overlap(cfg)
+        return dict(pairs=n, violations=[v['key'] for v in res])
     if r['kind'] == 'api':
         cfg = r['cfg']
         cfg['refused'] = tuple(cfg['refused'])
